@@ -184,6 +184,12 @@ def handleCore (directed : Bool) : Handler := fun s =>
     let (mFirst, mLast) := minMaxCharIndex allCps
     let ur := bitsToWords (unicodeRangeBits allCps) 4
     let cpr := bitsToWords (codepageRangeBits allCps) 2
+    -- two modelled implementations of x_avg_char_width are accepted: the code as it is (binary32 division)
+    -- and the repair of /verif/fixes/C17-os2-avg.patch (integer arithmetic, `xAvgCharWidthFixed`);
+    -- which one was seen is reported in the tags, and the oracle below is the same for both
+    let mAvgFixed := xAvgCharWidthFixed hm.longMetrics n
+    let avgIsFixed := iOs2.getD 0 0 == mAvgFixed && mAvgFixed != mAvg
+    let mAvg := if avgIsFixed then mAvgFixed else mAvg
     let os2Agree := iOs2 == ([mAvg, (mFirst : Int), (mLast : Int)] ++ (ur.map Int.ofNat) ++ (cpr.map Int.ofNat) ++ [0])
     let corr := boxesAgree && hheaAgree && hmtxAgree && vAgree && maxpAgree && headAgree && locaAgree && os2Agree
     -- ---------------- oracle: the property evaluated on the implementation's own output
@@ -282,7 +288,7 @@ def handleCore (directed : Bool) : Handler := fun s =>
       (if hms.any (fun m => m.sideBearing < 0) then ["neg-lsb"] else []) ++
       (if hms.any (fun m => match m.boundsAdvance with | some ba => (m.advance : Int) - m.sideBearing - ba < 0 | none => false) then ["neg-rsb"] else []) ++
       (if allCps.any (· ≥ 0x10000) then ["supplementary"] else []) ++
-      (if vertical then ["vertical"] else []) ++ (if vNarrow then ["v-tsb-out-of-i16"] else []) ++
+      (if vertical then ["vertical"] else []) ++ (if vertical && vNarrow then ["v-tsb-out-of-i16"] else []) ++
       (if (shapes.any fun sh => match sh with
           | .composite comps => (resolvedPoints shapes fuel comps Affine.identity).any fun p => !(inI16 (otRound p.1) && inI16 (otRound p.2))
           | _ => false) then ["bbox-saturated"] else []) ++
@@ -293,10 +299,12 @@ def handleCore (directed : Bool) : Handler := fun s =>
           | _ => false) then ["empty-composite-counted"] else []) ++
       (if !hInRange then ["h-clamped"] else []) ++ (if !avgInRange then ["avg-out-of-i16"] else []) ++
       (if fmtNat == 1 then ["loca-long"] else []) ++
-      (if avgOfF32 nz.length nz.sum != avgExact then ["avg-f32-differs"] else [])
+      (if avgOfF32 nz.length nz.sum != avgExact then ["avg-f32-differs"] else []) ++
+      (if avgIsFixed then ["avg-impl-is-integer-formula"] else [])
     let detail :=
       if corr && oracle then "" else
         s!"model: hhea={repr [(hm.advanceMax : Int), hm.minFirst, hm.minSecond, hm.maxExtent, hm.longMetrics.length]} maxp={repr mMaxp} head={repr hb} os2={repr ([mAvg, (mFirst : Int), (mLast : Int)])} ur={repr ur} cpr={repr cpr} avgExact={avgExact}"
+    let detail := (detail.replace "\n" " ")
     some { corr := some corr, oracle := some oracle, nontrivial := nt, cls := cls, tags := tags, detail := detail }
   r.getD (badInput "c17: cannot parse case")
 
